@@ -14,6 +14,9 @@ forwarded_allow_ips, i.e. it plays the trusted front-end that relays what the en
 Required (header_map drop/refuse): no environ variable is built from two spellings - the
 request is refused, or only one spelling reaches the variable.
 """
+import os as _os
+_TREE_UNDER_TEST = _os.environ.get("GVERIF_REPO") or _os.getcwd()   # the checkout under test (was the auditing agent's scratch worktree)
+
 import json
 import os
 import socket
@@ -22,7 +25,7 @@ import sys
 import tempfile
 import time
 
-ROOT = "/tmp/wa_C08"
+ROOT = _TREE_UNDER_TEST
 sys.path.insert(0, ROOT)
 
 APP = '''
